@@ -84,7 +84,8 @@ class ThreadSim(object):
         n = self.events
         fire = False
         if self.record:
-            self.locs.append((frame.f_code.co_filename, frame.f_lineno))
+            self.locs.append((frame.f_code.co_filename, frame.f_lineno,
+                              getattr(frame.f_code, 'co_name', '')))
         if self.triggers:
             key = (self.current, frame.f_code.co_filename, frame.f_lineno)
             want = self.triggers.get(key)
